@@ -262,6 +262,10 @@ def runCase (line : String) : String :=
   | ["render", cfgF, pathF, lineF, srcF, envF] => runRenderCase cfgF pathF lineF srcF envF
   | ["writes", cfgF, pathF, lineF, srcF, envF] => runWritesCase cfgF pathF lineF srcF envF
   | ["incl", cfgF, pathF, lineF, srcF, envF, mode] => runInclCase cfgF pathF lineF srcF envF mode
+  -- incld <want> <render line | incl line>: the deep and cyclic include layouts of the `incl` stream (the first field is
+  -- the harness oracle's expectation, not an input of the render)
+  | ["incld", _, "render", cfgF, pathF, lineF, srcF, envF] => runRenderCase cfgF pathF lineF srcF envF
+  | ["incld", _, "incl", cfgF, pathF, lineF, srcF, envF, mode] => runInclCase cfgF pathF lineF srcF envF mode
   | ["parse", d, src] =>
     let toks := scan (parseDelims d) (hexDecode src) 1
     match firstUnmodelledObj toks with
